@@ -1041,16 +1041,24 @@ func doQueue(t *testing.T, run *emit.Run, p *pool, r *rand.Rand, hostile bool) {
 			opS = fmt.Sprintf("OpSubmit %d %s", id, emit.ZU(g))
 			run.Count("op", "submit")
 		case k < 75:
+			halted := false
 			func() {
 				defer func() {
 					if x := recover(); x != nil {
+						// fee arithmetic left uint64 / LegacyDec range inside the end-blocker: the chain
+						// would halt here (C09, F6).  Nothing after it is meaningful: end the history.
 						run.Count("op", "endblock-panic")
+						halted = true
 					}
 				}()
 				if err := e.cons.CheckAndProcessEstimatedMessages(e.ctx); err != nil {
 					t.Fatal(err)
 				}
 			}()
+			if halted {
+				i = nops
+				continue
+			}
 			opS = "OpEndBlock"
 			run.Count("op", "endblock")
 		case k < 85:
